@@ -14,6 +14,7 @@ def run(repo: Repo, chk: Check):
     chk.rule("R13.c", "every access to the per-compile tables 'symbols' and 'structures' is keyed by the module-qualified scope name "
                       "(get_scope_name) or iterates the table itself", floor=8)
     chk.rule("R13.d", "module-level values of every module get the unbounded lifetime", floor=1)
+    chk.rule("R13.f", "every function scope stays clear of the registers of every library module's globals (shared with R04.f)", floor=1)
     chk.rule("R13.e", "an imported library module is renamed to its alias consistently (module name == key of the module table), and "
                       "scope / function names are qualified with that module name", floor=3)
     g = repo.mod("generate_code")
@@ -132,6 +133,9 @@ def run(repo: Repo, chk: Check):
 
     # ------------------------------------------------------------ R13.d
     rule_module_lifetime(repo, chk, "R13.d")
+
+    from .c04 import rule_functions_below_modules
+    chk.guarded(rule_functions_below_modules, repo, chk, "R13.f")
 
     # ------------------------------------------------------------ R13.e
     sm = cp.func("CompilerPassSetModuleNames.handle_import_from")
